@@ -414,6 +414,15 @@ def dhash(x):
     return zlib.crc32(repr(x).encode())
 
 
+_ERRVAL = re.compile(r"\[([A-Z][A-Za-z]*Err): (?:[^\[\]]|\[[^\[\]]*\])*\]")
+
+
+def norm_err_msgs(s):
+    """An error VALUE prints as [Kind: message]. Where a property speaks about the kind of an error and not about its wording, the
+    oracles compare texts with the message removed, so that rewording a message of the implementation is not reported as a violation."""
+    return _ERRVAL.sub(lambda m: "[" + m.group(1) + "]", s or "")
+
+
 def run_seeded_corpus(chk, pid=None):
     """Regression cases kept from seeded changes (tools/seeded_corpus/<PID>/*.pangaea + .json, written by tools/addcorpus.py):
     every program is evaluated twice in one interpreter and must print what it printed on the unchanged tree."""
@@ -432,7 +441,8 @@ def run_seeded_corpus(chk, pid=None):
         chk.count(("seeded-corpus", n), True)
         if r["kind"] == "fuel":
             continue
-        if r.get("nondet") or r["kind"] != exp["kind"] or r.get("out", "") != exp["out"] or (exp["kind"] == "error" and r.get("errk") != exp["errk"]):
+        same_out = r.get("out", "") == exp["out"] or (pid != "C13" and norm_err_msgs(r.get("out", "")) == norm_err_msgs(exp["out"]))
+        if r.get("nondet") or r["kind"] != exp["kind"] or not same_out or (exp["kind"] == "error" and r.get("errk") != exp["errk"]):
             chk.fail("regression case %s (kept from a seeded change: %s): the program no longer prints what it printed on the unchanged tree: %r vs %r%s" % (
                 n, exp.get("what", "")[:120], (r["kind"], r.get("errk"), r.get("out", "")[-300:]), (exp["kind"], exp.get("errk"), exp["out"][-300:]),
                 " (and differs between two evaluations)" if r.get("nondet") else ""),
